@@ -51,7 +51,8 @@ def main():
         finally:
             sh("git -C %s checkout -- ." % REPO)
         summary[sid] = res
-        meta["detected_by"] = sorted(c for c, v in res.items() if v["exit"] == 1 and v["violation"])
+        meta["detected_by"] = sorted(c for c, v in res.items() if v["exit"] == 1 and v["violation"] and "no-failing-input-found" not in v["violation"][0])
+        meta["proof_or_correspondence_only"] = sorted(c for c, v in res.items() if v["exit"] == 1 and v["violation"] and "no-failing-input-found" in v["violation"][0])
         meta["last_run"] = res
         json.dump(meta, open(os.path.join(d, "meta.json"), "w"), indent=1)
     print(json.dumps(summary, indent=1))
